@@ -9,6 +9,7 @@ if os.path.exists(rp):
     REASONS = json.load(open(rp))
 ids = [json.loads(l)['id'] for l in open(os.path.join(ROOT, 'properties.jsonl')) if l.strip()]
 claimed = sorted(f[:-3] for f in os.listdir(os.path.join(ROOT, 'props')) if re.match(r'C\d+\.py$', f))
+claimed = [c for c in claimed if getattr(importlib.import_module('props.' + c), 'READY', False)]
 checks = []
 for pid in claimed:
     P = importlib.import_module('props.' + pid)
